@@ -95,3 +95,18 @@ Theorem C10_otherwise_least_similar_candidate_with_warning :
       end.
 Proof. first [exact: create_pointer_least_similar | by move=> *; exact: create_pointer_least_similar | by intros; eapply create_pointer_least_similar; eauto]. Qed.
 Print Assumptions C10_otherwise_least_similar_candidate_with_warning.
+
+From mathcomp Require Import ssrZ.
+From Coq Require Import ZArith.
+(* non-vacuity: 'A * B + A' in a 3-dimensional HRR vocabulary; create_pointer skipping a too-similar first candidate *)
+Example C10_hypotheses_met_name :
+  let ents := [:: [:: 1; 2; 0]; [:: 0; 1; 1]]%Z in
+  (match parse AHrr 3 ents [::] [::] (EName 0) with inr x => sv_core x | inl _ => [::] end) = [:: 1; 2; 0]%Z.
+Proof. by vm_compute. Qed.
+Example C10_hypotheses_met_expr :
+  let ents := [:: [:: 1; 2; 0]; [:: 0; 1; 1]]%Z in
+  (match parse AHrr 3 ents [::] [::] (EAdd (EMul (EName 0) (EName 1)) (EName 0)) with inr x => sv_core x | inl _ => [::] end) = [:: 3; 3; 3]%Z.
+Proof. by vm_compute. Qed.
+Example C10_hypotheses_met_create :
+  create_pointer_sel (R := [realDomainType of Z]) [:: [:: 2; 0; 0]%Z] 3%Z [:: [:: 5; 0; 0]; [:: 0; 5; 0]]%Z = (Some [:: 0; 5; 0]%Z, false).
+Proof. by vm_compute. Qed.
